@@ -1,0 +1,20 @@
+//go:build verif
+
+package debug
+
+import "github.com/goghcrow/yae/val"
+
+// Entry is one recorded intermediate value (verification harness hook).
+type Entry struct {
+	V   *val.Val
+	Col int
+}
+
+// Entries exposes the record in recording order.
+func (r *Record) Entries() []Entry {
+	xs := make([]Entry, len(r.vs))
+	for i, v := range r.vs {
+		xs[i] = Entry{v.v, v.col}
+	}
+	return xs
+}
